@@ -1646,8 +1646,15 @@ pub fn conn_events(log: &[Event], conn: u64) -> Vec<&Event> {
 }
 
 /// BackendKeyData the mock hands out for a session (deterministic, so oracles can recompute it).
+/// Every third backend session reports a negative process id (the field is a plain Int32 on the wire; other poolers and
+/// proxies in front of PostgreSQL hand out such values).
 pub fn pid_for(server: usize, conn: u64) -> i32 {
-    (server as i32 + 1) * 100_000 + conn as i32
+    let p = (server as i32 + 1) * 100_000 + conn as i32;
+    if conn % 3 == 2 {
+        -p
+    } else {
+        p
+    }
 }
 pub fn key_for(conn: u64) -> i32 {
     (conn as i32).wrapping_mul(0x9E37_79B1u32 as i32) ^ 0x5bd1_e995
